@@ -196,6 +196,17 @@ func (c *FnCtx) doCall(frame *Frame, st *State, in ssa.Instruction, call *ssa.Ca
 			c.addOblig(st, "fs_effects:"+key, "frame", "false", "the function's file-system frame (fs_effects "+strings.Join(c.contract.FSEffects, ", ")+") does not allow a call of "+key, in.Pos())
 		}
 	}
+	if c.contract != nil && c.contract.HasFSAccess && (fsMutators[key] || fsReaders[key]) {
+		listed := false
+		for _, a := range c.contract.FSAccess {
+			if a == key {
+				listed = true
+			}
+		}
+		if !listed {
+			c.addOblig(st, "fs_access:"+key, "frame", "false", "the function's file-system frame (fs_access "+strings.Join(c.contract.FSAccess, ", ")+") does not allow a call of "+key, in.Pos())
+		}
+	}
 	// call-site rules of the function under verification
 	if !frame.inlined && frame.contract != nil && len(frame.contract.Asserts) > 0 && key != "" {
 		c.checkCallSiteAsserts(frame, st, in, key)
@@ -645,6 +656,14 @@ func (c *FnCtx) havocModItem(st *State, env *SpecEnv, m ModItem, preHeap map[str
 		path := joinPath(inner, m.Name)
 		if ghost {
 			path = "$" + m.Name
+		}
+		if obj.A != nil && !ghost {
+			// an interior pointer (&x.g, &s[i]): the field lives inside the containing object,
+			// which is where loads of x.g.f read it - havoc it there
+			a := &Addr{Space: obj.A.Space, Key: obj.A.Key, Idx: obj.A.Idx, Path: joinPath(obj.A.Path, path), T: ft}
+			nv := c.freshVal(st, ft, "havoc."+m.Name)
+			c.store(st, a, nv)
+			return
 		}
 		for _, lf := range leavesOf(ft) {
 			name := arrName("F", key, joinPath(path, lf.Path), lf.Sort)
